@@ -29,6 +29,9 @@ def gen_type(rng, bias_lattice=0.6):
         return 'MappingRule'
     if r < bias_lattice + 0.395:
         return 'Number'
+    if rng.random() < 0.5:
+        # a PythonType subclass whose convert() turns some VALUES down after check() passed (resolvelib.Picky)
+        return ['picky', rng.choice(['D', 'L', 'Base', 'object']), False]
     return ['py', 'D', False]
 
 
